@@ -10,6 +10,7 @@
    The rejection script [rej] lists the (write-access) indices of device writes that fail
    transiently, histories add more with OpReject; accesses outside the image fail always. *)
 From Cam Require Import Outcome Bytes Mem BitField RegCodec Cache CacheSpec P_C01 P_C04 CacheClient P_C04c.
+From Cam Require Import CacheOps CachePathSrc P_C04s.
 
 (* the invariant holds initially, every operation preserves it (also operations the device
    rejects), and it implies that every cache entry equals device memory at its key *)
@@ -241,3 +242,107 @@ Theorem C04_ownkeys_repaired_example :
     [1; 0; 2; 0; 4294967295; 1; 0; 1; 0; 1; 0; 2; 0; 4294902018].
 Proof. exact ownkeys_repaired. Qed.
 Print Assumptions C04_ownkeys_repaired_example.
+
+(* THE CACHING PATH TRANSLATED FROM THE SOURCE.  tools/translate_cachepath.py (re-run on /repo by every check) translates
+   RegisterBase::{with_cache_or_read, read_and_cache, write_and_cache} (register_base.rs), IPort::{read, write} of PortNode
+   (port.rs), the ValueCtxt forwarders (lib.rs), the traits CacheStore / CacheStoreBuilder and their implementations for
+   DefaultCacheStore and CacheSink (store.rs, builder.rs) and RegisterBase::store_invalidators (parser/register_base.rs)
+   into gen/CachePathSrc.v, over the operation vocabulary of model/CacheOps.v (HashMap = association list with hm_get /
+   hm_insert / hm_upsert / hm_modify; a path = a computation over device, variables and the cache store; length(..),
+   address(..), expect_iport_kind and the device are abstract there).  [model_store on y] is model/Cache.v's flat
+   association list as an instance of the translated trait; [rb_of y r] a register of the model as a RegisterBase;
+   [on_cst] runs a path on the model's state; [store_rel y st c]: the translated two-level store [st] answers every key
+   as the model's list [c] and its invalidator table is y's pInvalidator relation; [sink_rel st c]: c = [];
+   [same_run R a b]: same result / error, same device (memory, access log, write counter), same variables, stores
+   related by R.  Lengths: 0 <= length < 2^63 (an i64; the model's GUARD excludes negative lengths). *)
+
+(* write_and_cache: over the model's store the translated function IS m_write_and_cache (cached and uncached context);
+   over the translated DefaultCacheStore / CacheSink it does the same from related states *)
+Theorem C04_write_path_from_source : forall y n r buf,
+  (forall on s, 0 <= len_of r (c_vars s) < 2 ^ 63 ->
+     on_cst (src_RegisterBase_write_and_cache (model_store on y) (rb_of y r) n buf) s = m_write_and_cache on cur y n r buf s) /\
+  (forall x s, st_rel (store_rel y) x s -> 0 <= len_of r (c_vars s) < 2 ^ 63 ->
+     same_run (store_rel y) (src_RegisterBase_write_and_cache D_store (rb_of y r) n buf x)
+                            (m_write_and_cache true cur y n r buf s)) /\
+  (forall x s, st_rel sink_rel x s -> 0 <= len_of r (c_vars s) < 2 ^ 63 ->
+     same_run sink_rel (src_RegisterBase_write_and_cache D_sink (rb_of y r) n buf x)
+                       (m_write_and_cache false cur y n r buf s)).
+Proof. exact write_path_from_source. Qed.
+Print Assumptions C04_write_path_from_source.
+
+(* with_cache_or_read (for every closure f) is m_cached_bytes followed by f; read_and_cache is m_read_and_cache when the
+   buffer has the register's length and InvalidBuffer without a device access otherwise (the check m_raw_read makes) *)
+Theorem C04_read_path_from_source : forall y n r,
+  (forall on (A : Type) (f : list Z -> outcome A) s, 0 <= len_of r (c_vars s) < 2 ^ 63 ->
+     on_cst (src_RegisterBase_with_cache_or_read (model_store on y) (rb_of y r) n f) s
+     = mbind (m_cached_bytes on n r) (fun bs => mlift (f bs)) s) /\
+  (forall on a l buf s, 0 <= l < 2 ^ 63 ->
+     on_cst (src_RegisterBase_read_and_cache (model_store on y) (rb_of y r) n a l buf) s
+     = if zlen buf =? l then m_read_and_cache on n r a l s else (Err E_INVALID_BUFFER, s)) /\
+  (forall (A : Type) (f : list Z -> outcome A) x s, st_rel (store_rel y) x s -> 0 <= len_of r (c_vars s) < 2 ^ 63 ->
+     same_run (store_rel y) (src_RegisterBase_with_cache_or_read D_store (rb_of y r) n f x)
+                            (mbind (m_cached_bytes true n r) (fun bs => mlift (f bs)) s)) /\
+  (forall (A : Type) (f : list Z -> outcome A) x s, st_rel sink_rel x s -> 0 <= len_of r (c_vars s) < 2 ^ 63 ->
+     same_run sink_rel (src_RegisterBase_with_cache_or_read D_sink (rb_of y r) n f x)
+                       (mbind (m_cached_bytes false n r) (fun bs => mlift (f bs)) s)) /\
+  (forall a l buf x s, st_rel (store_rel y) x s -> 0 <= l < 2 ^ 63 -> zlen buf = l ->
+     same_run (store_rel y) (src_RegisterBase_read_and_cache D_store (rb_of y r) n a l buf x)
+                            (m_read_and_cache true n r a l s)).
+Proof. exact read_path_from_source. Qed.
+Print Assumptions C04_read_path_from_source.
+
+(* the store: what the translated builder produces from a system's nodes is the empty cache with the system's
+   pInvalidator table; every operation of the translated DefaultCacheStore (through the translated ValueCtxt forwarder)
+   is the model's operation, for every store and key; so after ANY sequence of operations the translated store answers
+   every key as the model's cache does; CacheSink never answers and the model with on = false keeps its cache empty *)
+Theorem C04_store_from_source : forall y,
+  store_rel y (build_store y) [] /\ sink_rel (build_sink y) [] /\
+  (forall st c, store_rel y st c ->
+     (forall n a l, src_ValueCtxt_get_cache D_store n a l st = c_find (n, a, l) c) /\
+     (forall n a l d, store_rel y (src_ValueCtxt_cache_data D_store n a l d st) (c_put true (n, a, l) d c)) /\
+     (forall n, store_rel y (src_ValueCtxt_invalidate_cache_by D_store n st) (c_inval_by y n c)) /\
+     (forall n, store_rel y (src_ValueCtxt_invalidate_cache_of D_store n st) (c_inval_of n c)) /\
+     store_rel y (src_ValueCtxt_clear_cache D_store st) []) /\
+  (forall os n a l,
+     src_ValueCtxt_get_cache D_store n a l (fold_left (fun u o => sop_src D_store o u) os (build_store y))
+     = c_find (n, a, l) (fold_left (fun c o => sop_model true y o c) os [])) /\
+  (forall os n a l,
+     src_ValueCtxt_get_cache D_sink n a l (fold_left (fun u o => sop_src D_sink o u) os (build_sink y)) = None /\
+     fold_left (fun c o => sop_model false y o c) os [] = []).
+Proof. exact store_from_source. Qed.
+Print Assumptions C04_store_from_source.
+
+(* the property's clauses on the translated code alone (any RegisterBase, no model): after a successful write_and_cache
+   of a WriteThrough register over the translated DefaultCacheStore the only block held for the node is the one just
+   written, under (address, current length) *)
+Theorem C04_write_through_of_source : forall self n buf x x',
+  RegisterBase_cacheable self = CachingMode_WriteThrough ->
+  src_RegisterBase_write_and_cache D_store self n buf x = (Ok tt, x') ->
+  exists a, address (RegisterBase_reg self) (x_vars x) = Ok a /\
+    forall a' l', src_ValueCtxt_get_cache D_store n a' l' (x_store x')
+                  = if (a' =? a) && (l' =? len_of (RegisterBase_reg self) (x_vars x)) then Some buf else None.
+Proof. exact write_through_of_source. Qed.
+Print Assumptions C04_write_through_of_source.
+
+(* a NoCache register never reaches cache_data, over any store: read_and_cache leaves the store as it was,
+   write_and_cache only invalidates (by the register's id, then - inside Port::write - by the port's id) *)
+Theorem C04_nocache_of_source : forall (U : Type) (D : src_CacheStore U) self n x,
+  RegisterBase_cacheable self = CachingMode_NoCache ->
+  (forall a l buf, x_store (snd (src_RegisterBase_read_and_cache D self n a l buf x)) = x_store x) /\
+  (forall buf,
+     let u := x_store (snd (src_RegisterBase_write_and_cache D self n buf x)) in
+     u = CacheStore_invalidate_by D n (x_store x) \/
+     u = CacheStore_invalidate_by D (RegisterBase_p_port self) (CacheStore_invalidate_by D n (x_store x))).
+Proof. exact nocache_of_source. Qed.
+Print Assumptions C04_nocache_of_source.
+
+(* non-vacuity (vm_compute): two registers over the same bytes, each the other's pInvalidator, on the store the
+   translated builder produces: write node 0; read node 0 (no device access); write node 1; read node 0 (device) *)
+Theorem C04_source_example :
+  fst ex_run = Ok ([9; 9; 9; 9], [7; 7; 7; 7]) /\
+  d_log (x_dev (snd ex_run)) = [RdAcc 256 4; WrAcc 256 [7; 7; 7; 7]; WrAcc 256 [9; 9; 9; 9]] /\
+  targets (build_store ex_sys) 0 = [1] /\ targets (build_store ex_sys) 1 = [0] /\
+  src_ValueCtxt_get_cache D_store 0 256 4 (x_store (snd ex_run)) = Some [7; 7; 7; 7] /\
+  src_ValueCtxt_get_cache D_store 1 256 4 (x_store (snd ex_run)) = None.
+Proof. exact c04s_example. Qed.
+Print Assumptions C04_source_example.
